@@ -1,6 +1,6 @@
 (* Properties_C19.v — C19: one request per connection; nothing is sent after the close. *)
 From Coq Require Import List ZArith.
-From QH Require Import Bytes Value SocketM SockIO SockProofs SockSpec SockSpecProofs.
+From QH Require Import Bytes Value SocketM SockIO SockProofs SockSpec SockSpecProofs Interleave.
 
 (* for every schedule of segments / acks / peer events / application calls and every
    application (reaction policy), headersParsed - and with it the server's routing, which is
@@ -41,3 +41,12 @@ Theorem C19_model_meets_spec : forall c,
   existsb is_bad (dec_log (run_sock c)) = false -> chk_C19_sock c (run_sock c) = true.
 Proof. exact model_meets_spec_C19. Qed.
 Print Assumptions C19_model_meets_spec.
+
+(* closing one connection, with others open and their operations interleaved in any order: what is written, routed and
+   closed on each connection is what it would be alone - a close ends that connection only, and no other connection's
+   bytes revive it *)
+Theorem C19_connections_independent : forall e p sched ss i s,
+  nth_error ss i = Some s ->
+  proj ev i (irun sock op ev (step e p) ss sched) = run sock op ev (step e p) s (ops_of op i sched).
+Proof. intros e p. exact (interleaving_independent sock op ev (step e p)). Qed.
+Print Assumptions C19_connections_independent.
